@@ -305,7 +305,9 @@ def run_estimator(case, ctx):
         ctx.check(list(est.columns) == model.states and list(sdt.columns) == model.states, f'columns:{name}', '')
         so = np.sqrt(np.maximum(np.einsum('kii->ki', Ps[:, lo:hi, lo:hi]), 0))
         rs = np.abs(sdt.values / so - 1).max()
-        re = (np.abs(est.values - xs[:, lo:hi]) / so).max()
+        # rounding of an estimate is relative to its own size, not to its sigma (an estimate of 100 sigma is common with a vague
+        # prior): the unit is sigma + |estimate| (thorough-tier false alarm, DESIGN 9.3)
+        re = (np.abs(est.values - xs[:, lo:hi]) / (so + np.abs(xs[:, lo:hi]))).max()
         ctx.stat(f'{name}_sd', rs / slack)
         ctx.stat(f'{name}_estimate', re / slack)
         ctx.check(rs <= slack, f'{name}_sd', lambda: f'case={case}: {name} sd relative difference {rs:.3e} tol {slack:.3e}')
@@ -322,13 +324,15 @@ def run_estimator(case, ctx):
     diff = got - exp
     diff[:, 0] *= W.D2R * rm
     diff[:, 1] *= W.D2R * rt * np.cos(tn['lat'].values * W.D2R)
-    sdn = np.where(mpos, sd_o, np.inf)
+    # unit: sigma + |T||x| (the size of the estimated error that is subtracted, before any cancellation inside T x)
+    mag = np.einsum('kij,kj->ki', np.abs(Tm), np.abs(xs[:, :ni]))
+    sdn = np.where(mpos, sd_o + mag, np.inf)
     r_tr = (np.abs(diff) / sdn).max()
     r_abs = np.abs(diff[~mpos]).max() if (~mpos).any() else 0.0
     ctx.stat('compensated_trajectory', r_tr / slack)
     k = np.unravel_index(np.argmax(np.abs(diff) / sdn), diff.shape)
     ctx.check(r_tr <= slack, 'compensated_trajectory',
-              lambda: f'case={case}: compensated {TRAJ[k[1]]} at t={grid[k[0]]} differs from the estimator by {r_tr:.3e} sigma (tol {slack:.3e})')
+              lambda: f'case={case}: compensated {TRAJ[k[1]]} at t={grid[k[0]]} differs from the estimator by {r_tr:.3e} (sigma + |estimated error|) (tol {slack:.3e})')
     ctx.check(r_abs <= 1e-6, 'compensated_trajectory_unmodelled_components', lambda: f'{r_abs:.3e}')
     # innovations in processing order
     pos = 0
